@@ -163,6 +163,11 @@ def check_level(sc, o, steps, parent, outs_list, prefix, fails):
                     bad("Logic evaluated more than once for one step / item", f"{len(here)} evaluations at index {idx}", s)
                 if s.get("foreach") is not None and len(here) != 1:
                     bad("forEach did not evaluate Logic exactly once per item", f"{len(here)} evaluations for item {idx}", s)
+                if s.get("foreach") is None and len(here) == 0:
+                    # every referenced step is Ok, the inputs evaluate, skipIf is false: the step must see those
+                    # values, i.e. its Logic is evaluated on them
+                    bad("Logic not evaluated although every referenced step is Ok and skipIf is false",
+                        f"outcome {outs[l]['cls']}, expected an evaluation on {want!r}", s)
                 if here and here[0]["tgt"] != list(lg):
                     bad("a different Logic than the referenced one was evaluated", f"{here[0]['tgt']} instead of {lg}", s)
             for t in here:
@@ -296,7 +301,7 @@ def shrink(sc, sig):
 
 def run_one(ctx: Ctx, sc, do_shrink=True):
     o = m.run(sc)
-    fails = oracle(sc, o)
+    fails = [] if m.shares_objects(o) else oracle(sc, o)
     seen = set()
     for sig, what, _ in fails:
         if sig in seen:
@@ -330,6 +335,9 @@ def run(ctx: Ctx):
     for sc in scenarios(ctx):
         o = run_one(ctx, sc)
         if "raised" in o["top"]:
+            continue
+        if m.shares_objects(o):
+            ctx.count("discarded:two-evaluations-share-an-object")      # outside the hypothesis (generator slip)
             continue
         n_edges = sum(len(m.step_refs(s)) for s in sc["steps"])
         ctx.note_case({"steps": sc["steps"], "subs": sc.get("subs"), "existing": sc.get("existing"), "trigger": sc["trigger"]},
